@@ -30,7 +30,7 @@ func RunWorker(stdin []byte, vmemKiB int, deadline time.Duration, args ...string
 	var so, se bytes.Buffer
 	cmd.Stdout = &so
 	cmd.Stderr = &se
-	cmd.Env = append(os.Environ(), "GOMAXPROCS=2")
+	cmd.Env = append(os.Environ(), "GOMAXPROCS=2", "VERIF_SCRATCH_BASE="+Scratch())
 	err := cmd.Run()
 	r := WorkerResult{Stdout: so.Bytes(), Stderr: se.Bytes()}
 	if ctx.Err() == context.DeadlineExceeded {
